@@ -54,8 +54,11 @@ func VerifC07Request() {
 		pk.FixedHeader = packets.FixedHeader{Type: packets.Pingreq}
 		pk.PacketID = 0
 	}
-	_ = s.processPacket(cl, pk)
+	_ = s.receivePacket(cl, pk)
 	vFlush(cl)
+	if vParam("WF", 0) == 1 {
+		vAssertWellFormed(vParseWire(vConnWritten(c), ver), ver, 0)
+	}
 	if cl.Closed() || vConnClosed(c) {
 		vReach("closed")
 		return
